@@ -220,6 +220,19 @@ func buildAPIPool(c *Ctx, p *Profile, sch *Schema, dir string) *apiPool {
 			add(s.Bytes(), fmt.Sprintf("record field %d declared with size %d", fd[v].Num, fd[v].Size))
 		}
 	}
+	// per family of file types one stream whose messages carry every field the profile
+	// knows for them (fields no device file of the corpus uses), and a file of the same
+	// type that holds no list message at all (after the full one, its slots are still nil)
+	for _, ft := range []int{15, 4, 9, 32} {
+		ga := &generator{rng: rng, p: p, sch: sch, k: defaultKnobs()}
+		ga.k.allFields, ga.k.fileType, ga.k.nrec, ga.k.pUnknownMsg, ga.k.pCompressed, ga.k.noTimeNoise = true, ft, 14, 0.05, 0.1, true
+		add(ga.Generate().Bytes(), fmt.Sprintf("generated stream, all fields, file type %d", ft))
+		s := newStream(12, false)
+		s.FileId(0, 0, byte(ft))
+		s.Def(1, 0, 49, []FieldDef{{0, 2, 0x84}}, nil)
+		s.Data(1, []byte{1, 0})
+		add(s.Bytes(), fmt.Sprintf("file type %d without any list message", ft))
+	}
 	ap.ChainN = ap.NDec
 	add(append(ap.input(1), ap.input(3)...), "chain: Activity + Settings")
 	add(append(append(ap.input(0), ap.input(6)...), ap.input(0)...), "chain: A + compressed-first + A")
